@@ -223,8 +223,8 @@ Print Assumptions C11_dt_truncate_before_zone_refuted.
       significant_digits / math_epsilon live inside structures), datetimes are atoms
       (leaves, dict keys, set members), and the options record has truncate_datetime
       and default_timezone.  Names are qualified with the X modules; [XModel.run_optF]
-      has the same dispatcher as [run_optF].  (X model and old model are tied to the
-      implementation separately by correspondence; there is no Coq embedding theorem.) *)
+      has the same dispatcher as [run_optF].  The two models are connected by the embedding theorem [C11_models_agree]
+      at the end of this file. *)
 From DD Require Options.XValue Options.XModel Options.XProofsBase Options.XProofsAtoms Options.XProofsKeys
   Options.XProofsLists Options.XProofsAlt Options.XProofsSafe Options.XProofsMono Options.XProofsRun Options.XProofsWitness.
 
@@ -318,3 +318,49 @@ Theorem C11x_default_timezone_monotone_refuted :
     exists r, XProofsWitness.xrun XProofsWitness.xcdef (XProofsWitness.XFtz 120) a b = XModel.Ok r /\ fst r <> [].
 Proof. exact XProofsWitness.x_default_timezone_monotone_refuted. Qed.
 Print Assumptions C11x_default_timezone_monotone_refuted.
+
+(** * The two models agree: [emb] embeds the shared universe into the extended one (half-integer floats to dyadic
+      rationals in lowest terms, other atoms identical), [embF] the option records (truncate_datetime off,
+      default_timezone UTC), [embC] the configuration, [embRes] results (entries, paths, values); the extended model on
+      embedded inputs computes the embedding of what the old model computes - for every oracle of the extended
+      model that agrees with the old one's on embedded sequences (one always exists: [opsX_of_agree]). *)
+From DD Require Options.OptEmbedNum Options.OptEmbed Options.OptEmbedCor.
+
+Theorem C11_models_agree :
+  forall udiff ops opsX,
+  (forall p xs ys, opsX (OptEmbed.embP p) (map OptEmbed.emb xs) (map OptEmbed.emb ys) = map OptEmbed.embO (ops p xs ys)) ->
+  forall c F t1 t2,
+  XModel.run_optF udiff opsX (OptEmbed.embC c) (OptEmbed.embF F) (OptEmbed.emb t1) (OptEmbed.emb t2)
+  = OptEmbed.embRes (run_optF udiff ops c F t1 t2).
+Proof. exact OptEmbed.models_agree. Qed.
+Print Assumptions C11_models_agree.
+
+Theorem C11_models_agree_diff :     (* the same before mutual_add_removes, at any pair of paths *)
+  forall udiff ops opsX,
+  (forall p xs ys, opsX (OptEmbed.embP p) (map OptEmbed.emb xs) (map OptEmbed.emb ys) = map OptEmbed.embO (ops p xs ys)) ->
+  forall c F t1 t2 p1 p2,
+  XModel.diffF udiff opsX (OptEmbed.embC c) (OptEmbed.embF F) (OptEmbed.emb t1) (OptEmbed.emb t2) (OptEmbed.embP p1) (OptEmbed.embP p2)
+  = OptEmbed.embRes (diffF udiff ops c F t1 t2 p1 p2).
+Proof. exact OptEmbed.emb_diffF. Qed.
+Print Assumptions C11_models_agree_diff.
+
+Theorem C11_models_agree_empty :
+  forall udiff ops opsX,
+  (forall p xs ys, opsX (OptEmbed.embP p) (map OptEmbed.emb xs) (map OptEmbed.emb ys) = map OptEmbed.embO (ops p xs ys)) ->
+  forall c F t1 t2,
+  run_optF udiff ops c F t1 t2 = Ok ([], []) <->
+  XModel.run_optF udiff opsX (OptEmbed.embC c) (OptEmbed.embF F) (OptEmbed.emb t1) (OptEmbed.emb t2) = XModel.Ok ([], []).
+Proof. exact OptEmbed.models_agree_empty. Qed.
+Print Assumptions C11_models_agree_empty.
+
+Theorem C11_agreeing_oracle_exists :
+  forall ops p xs ys,
+  OptEmbedCor.opsX_of ops (OptEmbed.embP p) (map OptEmbed.emb xs) (map OptEmbed.emb ys) = map OptEmbed.embO (ops p xs ys).
+Proof. exact OptEmbedCor.opsX_of_agree. Qed.
+Print Assumptions C11_agreeing_oracle_exists.
+
+(* an old-model theorem as a corollary of the extended model's: clause 3 *)
+Theorem C11_never_raises_via_extended_model :
+  forall udiff ops c F t1 t2, exists r, run_optF udiff ops c F t1 t2 = Ok r.
+Proof. exact OptEmbedCor.never_raises_via_extended. Qed.
+Print Assumptions C11_never_raises_via_extended_model.
